@@ -14,7 +14,7 @@ tvars == <<s, i, failed, call>>
 
 Q == 2
 IsFin(v) == -2000000000 <= v /\ v <= 2000000000
-NoCall == [cfg |-> [alg |-> "tucker", cap |-> 0, tol |-> FALSE, cb |-> FALSE, cbstops |-> FALSE],
+NoCall == [cfg |-> [alg |-> "tucker", cap |-> 0, tol |-> FALSE, cb |-> FALSE, cbstops |-> FALSE, signed |-> FALSE],
            errs |-> <<>>, below |-> <<>>, n_errs |-> -1, n_cb |-> 0, cb_true_at |-> -1]
 
 ErrAt(k) == IF k >= 0 /\ k + 1 <= Len(call.errs) THEN call.errs[k + 1] ELSE 0
@@ -41,18 +41,20 @@ Adv(x, n) ==
 
 LineVerdict(e, fam) ==
     IF s.pc = "done" THEN "LineAfterExit"
-    ELSE LET a == Adv(s, 3) IN
+    ELSE LET a == Adv(s, s.c.cap + 1) IN
          IF a.bad # "ok" THEN a.bad
          ELSE LET y == a.st IN
               IF ~(y.pc = "print" /\ PrintDue(y)) THEN "LineNotEnabled"
               ELSE IF ~(y.c.alg \in fam) THEN "LineKind"
+              ELSE IF fam = CPFamily /\ e.ev = "Err0" /\ y.it # 0 THEN "ErrorLineKind"
+              ELSE IF fam = CPFamily /\ e.ev = "ErrK" /\ ~(y.it >= 1 /\ e.k = y.it) THEN "ErrorLineKind"
               ELSE IF fam = RingFamily /\ e.k # y.it + 1 THEN "IterationNumber"
               ELSE IF fam = RingFamily /\ e.has_e # RecordOn(y.c) THEN "ErrorFieldPresence"
               ELSE IF fam = RingFamily /\ e.has_d # (RecordOn(y.c) /\ y.it >= 1) THEN "DecreaseFieldPresence"
               ELSE IF fam = RingFamily /\ ~e.has_e THEN "ok"
               ELSE IF ~IsFin(e.e) THEN "ErrorNotFinite"
               ELSE IF ~(e.e - ErrAt(y.it) \in -Q..Q) THEN "PrintedErrorIsNotTheRecordedOne"
-              ELSE IF (fam = TuckerFamily \/ e.has_d) /\ ~(IsFin(e.d) /\ e.d - (ErrAt(y.it - 1) - ErrAt(y.it)) \in -(2 * Q)..(2 * Q))
+              ELSE IF (fam = TuckerFamily \/ (fam = RingFamily /\ e.has_d) \/ (fam = CPFamily /\ e.ev = "ErrK")) /\ ~(IsFin(e.d) /\ e.d - (ErrAt(y.it - 1) - ErrAt(y.it)) \in -(2 * Q)..(2 * Q))
                    THEN "PrintedDecrease"
               ELSE "ok"
 
@@ -64,6 +66,7 @@ CbCountOK(x) == call.n_cb = x.ncb
 Verdict(e) ==
     IF e.ev = "Err" THEN LineVerdict(e, TuckerFamily)
     ELSE IF e.ev = "Iter" THEN LineVerdict(e, RingFamily)
+    ELSE IF e.ev \in {"Err0", "ErrK"} THEN LineVerdict(e, CPFamily)
     ELSE IF e.ev = "CbExit" THEN
         IF ~(s.pc = "cb" /\ CbOK(s, TRUE)) THEN "CallbackExitNotEnabled"
         ELSE IF s.it # call.cb_true_at THEN "CallbackExitWithoutTrue"
@@ -71,13 +74,15 @@ Verdict(e) ==
     ELSE IF e.ev = "Conv" THEN
         LET x == AfterCb(s) IN
         IF ~(x.pc = "tol" /\ TolOK(x, TRUE)) THEN "ConvergenceNotEnabled"
-        ELSE IF ~(e.fam = (IF x.c.alg \in TuckerFamily THEN "tucker" ELSE "ring")) THEN "LineKind"
+        ELSE IF ~(e.fam = (IF x.c.alg \in TuckerFamily THEN "tucker" ELSE IF x.c.alg \in RingFamily THEN "ring" ELSE "cp")) THEN "LineKind"
         ELSE IF e.k # x.it THEN "IterationNumber"
         ELSE IF ~BelowAt(x.it) THEN "ConvergedWithoutMeetingTheRule"
         ELSE "ok"
     ELSE IF e.ev = "Return" THEN
         IF s.pc = "done" THEN (IF ~LenOK(s) THEN "ErrorListLength" ELSE IF ~CbCountOK(s) THEN "CallbackCalls" ELSE "ok")
-        ELSE LET a == Adv(s, 3) IN
+        \* the silent exit of constrained_parafac: unobservable, accepted wherever the model enables it
+        ELSE IF FeasOK(s) THEN (IF ~LenOK(s) THEN "ErrorListLength" ELSE "ok")
+        ELSE LET a == Adv(s, s.c.cap + 1) IN
              IF a.bad # "ok" THEN a.bad
              ELSE IF a.st.pc = "print" THEN "MissingLine"
              ELSE IF ~CapOK(a.st) THEN "ReturnedBeforeBudgetOrStop"
@@ -88,13 +93,13 @@ Verdict(e) ==
     ELSE "Malformed"
 
 StepTo(e) ==
-    CASE e.ev \in {"Err", "Iter"} -> PrintF(Adv(s, 3).st)
+    CASE e.ev \in {"Err", "Iter", "Err0", "ErrK"} -> PrintF(Adv(s, s.c.cap + 1).st)
       [] e.ev = "CbExit" -> CbF(s, TRUE)
       [] e.ev = "Conv" -> TolF(AfterCb(s), TRUE)
-      [] e.ev = "Return" -> IF s.pc = "done" THEN s ELSE CapF(Adv(s, 3).st)
+      [] e.ev = "Return" -> IF s.pc = "done" THEN s ELSE IF FeasOK(s) THEN FeasF(s) ELSE CapF(Adv(s, s.c.cap + 1).st)
 
 ValidCfg(c) == /\ c.alg \in Algs /\ c.cap \in 0..400 /\ c.tol \in BOOLEAN /\ c.cb \in BOOLEAN /\ c.cbstops \in BOOLEAN
-               /\ (c.cbstops => c.cb) /\ (c.alg \in TuckerFamily => ~c.cb)
+               /\ c.signed \in BOOLEAN /\ FamilyOK(c)
 
 TraceInit == /\ s = InitS(NoCall.cfg, 0) /\ i = 1 /\ failed = FALSE /\ call = NoCall
 
